@@ -52,11 +52,13 @@ class Rec(MessagePassingComputation):
 
 
 class Driver:
-    def __init__(self):
+    def __init__(self, real=False):
+        """real: a1's own thread (the real Agent._run) will handle its messages; it is not booted here"""
         self.w = AgentWorld()
         self.a1 = self.w.add_agent("a1")
         self.a2 = self.w.add_agent("a2")
-        self.w.boot("a1")
+        if not real:
+            self.w.boot("a1")
         self.w.boot("a2")
         # a1 knows where the destination of c's posts lives (what discovery would have told it)
         self.a1.discovery.register_agent("a2", self.a2.address, publish=False)
@@ -168,6 +170,104 @@ def random_history(r, length):
     return d, ops
 
 
+class Ctl(MessagePassingComputation):
+    """orders handled on the agent's own thread: hold (blocks the loop while the harness fills the queue), start / pause / resume
+    of the observed computation, sync (tells the harness that everything queued before it has been handled)"""
+
+    def __init__(self, drv):
+        import threading
+        super().__init__("_ctl")
+        self.drv = drv
+        self.held, self.release, self.synced = threading.Event(), threading.Event(), threading.Event()
+        self._msg_handlers["ctl"] = self._on_ctl
+
+    def _on_ctl(self, sender, msg, t):
+        what = msg.content
+        if what == "hold":
+            self.held.set()
+            self.release.wait(20)
+        elif what == "sync":
+            self.synced.set()
+        elif what == "start":
+            self.drv.a1.run("c")
+        elif what == "pause":
+            self.drv.a1.pause_computations("c")
+        elif what == "resume":
+            self.drv.a1.unpause_computations("c")
+
+
+def real_loop_history(phases):
+    """the same operations with the agent's REAL loop (Agent._run on the agent's own thread).  Each phase is a list of operations
+    (recv / start / pause / resume) that are all in the agent's queue when its loop next looks at it: the loop is held inside a
+    handler while they are posted.  The orders to start / pause / resume the computation are management messages (priority 10),
+    handled on the agent's thread, as the orchestrator's run / pause / resume requests are."""
+    import time as _time
+    d = Driver(real=True)
+    ctl = Ctl(d)
+    ctl._running = True
+    d.a1.add_computation(ctl)
+    d.a1.t.daemon = True
+    d.a1.start()
+    post = d.a1._messaging.post_msg
+
+    def order(what, prio=10):
+        post("_harness", "_ctl", Message("ctl", what), prio)
+
+    def sync():
+        for _ in range(2):          # (twice: what the first batch re-injected is handled before the second one)
+            ctl.synced.clear()
+            order("sync", 40)
+            if not ctl.synced.wait(20):
+                raise MachineryError("the agent's loop does not handle its queue")
+    ops = []
+    try:
+        for phase in phases:
+            ctl.held.clear()
+            ctl.release.clear()
+            order("hold", 5)
+            if not ctl.held.wait(20):
+                raise MachineryError("the agent's loop does not handle its queue")
+            for op in phase:
+                ops.append({"n": op})
+                if op == "recv":
+                    d.nmid += 1
+                    post("s%d" % (d.nmid % 2), "c", d.new_msg("m", d.nmid))
+                else:
+                    order(op)
+            ctl.release.set()
+            sync()
+        # quiescence: started, resumed, drained
+        if not d.c.is_running:
+            order("start")
+            sync()
+        if d.c.is_paused:
+            order("resume")
+            sync()
+        return d, ops
+    finally:
+        ctl.release.set()
+        d.a1.stop()
+        d.a1.t.join(10)
+
+
+def real_phases(r):
+    """seeded scripts around the two situations of the statement: messages held before the start / during a pause, then the order
+    that ends the hold queued together with newer messages"""
+    out = []
+    for _ in range(r.randrange(1, 4)):
+        held = ["recv"] * r.randrange(1, 4)
+        newer = ["recv"] * r.randrange(0, 4)
+        if not out:
+            first = r.choice(["start", "pause_first"])
+            if first == "start":
+                out += [held, ["start"] + newer]
+            else:
+                out += [["start"], ["pause"], held, ["resume"] + newer]
+        else:
+            out += [["pause"], held, ["resume"] + newer]
+    return out
+
+
 def run(tier):
     quick = tier == "quick"
     v = Verdict("C19", tier, "model_checking")
@@ -205,6 +305,13 @@ def run(tier):
     for _ in range(300 if quick else 3000):
         d, ops = random_history(r, r.randrange(10, 45))
         hist.append((d.history(len(hist), True), ops))
+    nreal = 0
+    for _ in range(40 if quick else 400):
+        phases = real_phases(r)
+        d, ops = real_loop_history(phases)
+        hist.append((d.history(len(hist), True), {"real_loop_phases": phases}))
+        nreal += 1
+    v.cov["real_agent_loop_histories"] = nreal
     f = scratch() / "c19.ndjson"
     with open(f, "w") as fh:
         for h, _ in hist:
@@ -224,13 +331,15 @@ def run(tier):
             v.violation(key, "%s: received %s handled %s; posted %s sent %s" % (clause, h["recvOrder"], h["handled"], h["postOrder"], h["sent"]),
                         {"ops": ops, "history": h})
         if not verdicts[h["id"]] and len(h["handled"]) >= 3 and len(h["sent"]) >= 1 and not h["overlap"]:
-            v.sample({"ops": [o["n"] for o in ops], "history": h}, cap=2)
+            v.sample({"ops": [o["n"] for o in ops] if isinstance(ops, list) else ops, "history": h}, cap=2)
     v.cov["exhaustive"] = True
     v.cov["rule"] = ("model: all histories over {recv, post, agent loop iteration (handler replies or not), start, pause, resume} with at most %d "
                      "received and %d posted messages; every transition replayed on the real Agent + MessagePassingComputation with full "
                      "projection comparison (running, paused, both buffers, queue content with priorities, handled, sent); plus %d seeded "
-                     "random histories of 10-45 operations driven to quiescence; all real histories judged by TLC; non-trivial = at least two "
-                     "messages received and at least two handled (or an overlap)" % (mr, mp, 300 if quick else 3000))
+                     "random histories of 10-45 operations driven to quiescence; plus %d seeded histories handled by the REAL agent loop on the agent's "
+                     "own thread (messages held before a start / during a pause, then the start / resume order queued together with newer "
+                     "messages); all real histories judged by TLC; non-trivial = at least two "
+                     "messages received and at least two handled (or an overlap)" % (mr, mp, 300 if quick else 3000, nreal))
     v.cov["trusted_base"] = ["TLC", "vlib/agentrt.py (the three statements of Agent._run's loop body)", "the recording wrappers of vlib/props/C19.py"]
     return v.finish()
 
@@ -238,10 +347,13 @@ def run(tier):
 def replay(path):
     d0 = json.load(open(path))
     ops = d0["replay"].get("ops") or d0["replay"].get("path")
-    d = Driver()
-    for a in ops:
-        d.apply(a)
-    d.settle()
+    if isinstance(ops, dict):
+        d, _ = real_loop_history(ops["real_loop_phases"])
+    else:
+        d = Driver()
+        for a in ops:
+            d.apply(a)
+        d.settle()
     h = d.history(0, True)
     print(json.dumps(h))
     bad = h["handled"] != [m for m in h["recvOrder"] if m in h["handled"]] or sorted(h["handled"]) != sorted(h["recvOrder"]) or \
